@@ -15,13 +15,16 @@ from sim import seams, workload as wl
 from sim.util import digest, exc_signature, violation
 
 PROP = "C04"
-RANK = {9: 0, 2: 1, 1: 2, 3: 3, 4: 4}
+RANK = {9: 0, 2: 1, 1: 2, 3: 3, 4: 4}  # keys are compared with ==, so 260 or -252 are simply not flags
 NONFLAGS = (0, 5, 7, 8, 10, 100)
 
 
 def generate(rng, tier="quick"):
     n = rng.weighted([(0, 1), (1, 2), (2, 2), (rng.randint(3, 12), 10), (rng.randint(13, 30), 3), (rng.randint(990, 1100), 0.25)])
     k = rng.randint(1, 6)
+    if rng.chance(0.02):
+        k = rng.randint(65, 140)  # a roll-up over very many tests (chunked / blocked code paths)
+        n = min(n, 12)
     vectors = []
     for _ in range(k):
         dtype = rng.weighted([("uint8", 6), ("int64", 2), ("float64", 2), ("int8", 1), ("uint16", 1), ("float32", 1)])
@@ -33,6 +36,10 @@ def generate(rng, tier="quick"):
                 v = 1 if rng.chance(0.7) else rng.pick(seams.FLAGSET)
             elif style == "with_nonflags" and rng.chance(0.3):
                 v = rng.pick(NONFLAGS)
+                if dtype in ("int64", "uint16") and rng.chance(0.5):
+                    v = rng.pick((257, 258, 259, 260, 265, 513, 1028))  # not flags, whatever they are modulo 256
+                elif dtype == "int64" and rng.chance(0.3):
+                    v = rng.pick((-252, -255, -247, 2**31 + 4))
                 if dtype in ("float64", "float32") and rng.chance(0.4):
                     v = None  # NaN
                     if rng.chance(0.3):
